@@ -209,7 +209,73 @@ def search_c03(results, tier, seed, broken):
                   "rule": "honest proofs, proofs from violating witnesses (constraint / gate via hook H2), single-field mutations of every kind, forced zero draws (identity T_1 etc.); the real verdict is compared with ID /\\ R_t=0 /\\ R_ipp=0 evaluated by the specification with explicit round-by-round folding; distinct = distinct (relation triple, scalar vector)"}
 
 
+# ------------------------------------------------------------------ C01 / C02
+def _r1cs_cases(results):
+    for comp, streams, r in results:
+        if comp != "r1cs":
+            continue
+        for cid, s in r.summary.items():
+            yield comp, streams, r, cid, s, (r.impl.get(cid) or {}), (r.model.get(cid) or {})
+
+
+def search_c01(results, tier, seed, broken):
+    """honest programs (witness satisfying by construction, confirmed by the model's sat flag): prove must succeed and
+    verify must accept, on every curve, for capacities >= padded size"""
+    hits, n, nontriv, dist = [], 0, set(), Counter()
+    for comp, streams, r, cid, s, im, m in _r1cs_cases(results):
+        tag = s.get("tag", "")
+        if not (tag.startswith("honest") or tag.startswith("cs")):
+            continue
+        if tag.startswith("cs-missing") and m.get(15) != [0]:
+            continue   # the prover's program ended at a missing assignment: not a completed honest run
+        n += 1
+        sat = m.get(8, [None])[0]
+        ident = _model_identity_points(m)
+        mand = [i for i in ident if i not in (3, 4, 5)]
+        dist["sat=%s prover=%s verdict=%s" % (sat, s.get("prover"), s.get("verdict"))] += 1
+        if (re.search(r"n1=(\d+) n2=(\d+)", tag) or [0])[0]:
+            nontriv.add(tag + "|" + " ".join(im.get(5, []))[:60])
+        if s.get("prover") != 0:
+            hits.append(_hit(r, comp, streams, cid, "proving a satisfied constraint system failed (result %s)" % s.get("prover")))
+        elif sat == 1 and not mand and s.get("verdict") != 0:
+            hits.append(_hit(r, comp, streams, cid, "honest proof of a satisfied constraint system rejected (verdict %s)" % s.get("verdict")))
+    return hits, {"searched": n, "hits": len(hits), "distinct_nontrivial": len(nontriv), "distribution": dict(dist),
+                  "rule": "random programs over all call kinds (commit after constrain, single/paired allocations, pending allocation at phase end, user messages, 0-2 closures with challenge-dependent coefficients and assignments), witness satisfying by construction, prover/verifier capacities n' or 2n' independently, 3 curves; non-trivial = at least one gate or constraint; distinct = distinct (shape, proof scalars)"}
+
+
+def search_c02(results, tier, seed, broken):
+    hits, n, nontriv, dist = [], 0, set(), Counter()
+    for comp, streams, r, cid, s, im, m in _r1cs_cases(results):
+        tag = s.get("tag", "")
+        if not tag.startswith("violate"):
+            continue
+        n += 1
+        sat = m.get(8, [None])[0]
+        dist["%s sat=%s verdict=%s" % (tag.split(" ")[0], sat, s.get("verdict"))] += 1
+        nontriv.add(tag + "|" + " ".join(im.get(5, []))[:60])
+        if sat == 0 and s.get("verdict") == 0:
+            hits.append(_hit(r, comp, streams, cid, "proof emitted for a violating witness (%s) accepted" % tag))
+        if sat == 1:
+            dist["generator-produced-nonviolating"] += 1
+    return hits, {"searched": n, "hits": len(hits), "distinct_nontrivial": len(nontriv), "distribution": dict(dist),
+                  "rule": "satisfying programs with exactly one linear constraint broken (any position, both phases, by 1, -1 or random) or one first-phase gate overwritten through hook H2 with o = l*r + delta; the model's sat flag confirms the violation; an acceptance is a hit"}
+
+
 PROPS = {
+    "C01": {
+        "prop_files": ["Properties/C01.v"], "run_files": ["Run/R1cs.v"],
+        "level": "proof",
+        "components": lambda tier: [("r1cs", ["honest", "cs"], {})],
+        "search": search_c01,
+        "assumptions": ["field and F-module laws; oracle idealisation of Merlin; non-zero inverted challenges; non-identity mandatory points (measure-zero exceptions, rejected by design)"],
+    },
+    "C02": {
+        "prop_files": ["Properties/C02.v"], "run_files": ["Run/R1cs.v"],
+        "level": "proof",
+        "components": lambda tier: [("r1cs", ["violate", "honest"], {})],
+        "search": search_c02,
+        "assumptions": ["field and F-module laws, B <> 0; oracle idealisation; the probability statement itself is not formalised (counting form proved)"],
+    },
     "C03": {
         "prop_files": ["Properties/C03.v"], "run_files": ["Run/R1cs.v"],
         "level": "proof",
